@@ -63,25 +63,17 @@ def order_rule(ctx, rid):
                         # same variable, and not re-assigned in between
                         rr.ok("%s: %s counted == %s sown (`%s`)" % (name, key, key, kws.get(key)))
     # persisted <-> restored
-    si = crop.methods.get("save_info")
+    si, rec, written, restored = shared.record_table(ctx)
     sy = crop.methods.get("_sync_info_from_disk")
-    need(si and sy, "anchor lost: save_info/_sync_info_from_disk")
-    rec = None
-    for nd, c, nm in all_calls(ctx, si):
-        if nm == CROP + ".write_to_disk" and c.args and isinstance(c.args[0], ast.Dict):
-            rec = c.args[0]
-    need(rec is not None, "idiom changed: save_info does not write a dict literal")
-    written = {k.value: norm(v) for k, v in zip(rec.keys, rec.values) if isinstance(k, ast.Constant)}
     ctx.touch(si), ctx.touch(sy)
     for key, attr in (("batchsize", "self.batchsize"), ("num_batches", "self.num_batches"), ("_batch_remainder", "self._batch_remainder")):
         if written.get(key) != attr:
             rr.bad(ctx.finding(rid, si, rec, "settings record stores %r = %s instead of %s" % (key, written.get(key), attr), construct="record " + key), "record %s" % key)
             continue
-        restored = [nd for nd in build_cfg(sy.node).nodes if nd.kind == "stmt" and isinstance(nd.ast, ast.Assign) and norm(nd.ast.targets[0]) == attr]
-        if len(restored) == 1 and norm(restored[0].ast.value) == "settings[%r]" % key:
+        if restored.get(attr) == key:
             rr.ok("%s persisted as %r and restored from %r" % (attr, key, key))
         else:
-            rr.bad(ctx.finding(rid, sy, sy.node, "%s is not restored from the like-named key %r (found %s)" % (attr, key, [norm(x.ast) for x in restored]), construct="restore " + key), "restore %s" % key)
+            rr.bad(ctx.finding(rid, sy, sy.node, "%s is not restored from the like-named key %r (restored from %r)" % (attr, key, restored.get(attr)), construct="restore " + key), "restore %s" % key)
     return rr
 
 
